@@ -1,0 +1,12 @@
+//go:build verif
+
+// Contracts for the exovc verifier (/verif). Comment-only: with the tag off this file is not part
+// of the package, with the tag on it declares nothing.
+package keeper
+
+//@ func (msgServer).UpdateParams
+//@   requires req != nil
+//@   requires isMainnet(unwrap_ctx(goCtx)) && k.Keeper.authority != req.Authority
+//@   flag prune
+//@   ensures[C10.up.feedistribution] isMainnet(unwrap_ctx(goCtx)) && k.Keeper.authority != old(req.Authority) ==>
+//@        err != nil && state(unwrap_ctx(goCtx)) == old(state(unwrap_ctx(goCtx)))
